@@ -231,6 +231,11 @@ class Interp:
         if k in ("NullStmt",):
             return
         if k == "IfStmt":
+            if s.get("constexpr"):
+                # a compile-time configuration switch (`if constexpr (NbRhs != 0)`): the copies of both sides are examined
+                for c in s["c"][1:]:
+                    self.run(c)
+                return
             raise AnalysisBroken("%s: conditional copy not modelled" % self.facts.loc(s))
         if k in ("CallExpr", "CXXMemberCallExpr") and s.get("cast") == "ToVoid":
             return
